@@ -356,6 +356,17 @@ impl Node {
         let network = dummy_network(&shared, &dir);
         pack.take_tx_pool_builder().start(network.clone());
         let chain = ChainServiceScope::new(pack.take_chain_services_builder());
+        // Let the start-up scan for stored-but-unverified blocks finish before any block is
+        // delivered (the repository's own tests do the same).  Delivering a block that fails
+        // verification while that scanner thread still runs can make it panic ("unverified block
+        // must be in db") — noted in DESIGN §6.4 as an observation.
+        let t0 = Instant::now();
+        while chain.chain_controller().is_verifying_unverified_blocks_on_startup() {
+            if t0.elapsed() > Duration::from_secs(60) {
+                return Err("harness: start-up verification of stored blocks did not finish in 60 s".into());
+            }
+            std::thread::sleep(Duration::from_millis(1));
+        }
         Ok(Node {
             shared,
             chain: Some(chain),
